@@ -6,8 +6,11 @@ META = {
                     "block mapping, block read/write and checksum computation are stubs (always succeed); checksum content is C14",
                     "little-endian host (the WORDS_BIGENDIAN swab paths of dirblock.c are not compiled)"],
     "outside": ["histories of operations: one operation from an arbitrary well-formed block (induction over WF), not sequences",
-                "dx_lookup as a whole (multi-level walk, root info validation), dx_split_leaf, dx_move_dirents, dx_grow_tree, dx_link's retry loop",
-                "ext2fs_expand_dir, ext2fs_mkdir (inode/block allocation, parent link count), ext2fs_symlink, namei path walk",
+                "dx_lookup as a whole (multi-level walk, root info validation), dx_split_leaf, dx_move_dirents, dx_link's retry loop; "
+                "dx_grow_tree only for the interior split below a non-full parent and the 1 -> 2 level depth increase",
+                "ext2fs_expand_dir over the real block iterator/allocator (iterator, allocator, zeroing are stubs; allocation failure, bigalloc, "
+                "huge_file, extent-mapped and inline directories outside), ext2fs_mkdir (inode/block allocation, parent link count), "
+                "ext2fs_symlink, namei path walk",
                 "link counts, dir_nlink overflow rule, release of inode and blocks by debugfs rm/rmdir/kill_file",
                 "inline-data directories, casefolded/encrypted directories (SipHash, hash-in-dirent), blocksize >= 65536 rec_len encoding",
                 "interleaving with e2fsck -D (rehash.c: see C05), e2fsck -fn verdict on the result, duplicate-name prevention (ext2fs_link does not check)",
@@ -161,6 +164,52 @@ HARNESSES.append(
          backends=["default", "kissat"],
          bound="block size 32/48/64; dir_ino and parent_ino all 2^32 values; features per query"))
 
+def expand_cfgs():
+    c = []
+    for bs, nex, feat in ((1024, 12, {}), (1024, 1, {"WITH_CSUM": None}), (2048, 3, {"WITH_FILETYPE": None, "WITH_CSUM": None})):
+        d = {"BS": bs, "NEXIST": nex}
+        d.update(feat)
+        n = max(nex + 1, 5)
+        d["_unwindset"] = ["vf_scan.0:%d" % (bs // 4 + 1), "vf_scan.1:%d" % (bs // 4 + 1), "memset.0:%d" % (bs + 1),
+                           "stub_write_blk64.0:%d" % (bs + 1), "stub_write_blk64.1:2",
+                           "stub_block_iterate3.0:%d" % n, "stub_block_iterate3.1:%d" % n] + \
+                          ["main.%d:%d" % (i, bs + 1) for i in range(8)]
+        c.append(d)
+    return c
+
+HARNESSES.append(
+    dict(name="expanddir", src="expanddir.c",
+         funcs=["ext2fs_expand_dir", "expand_dir_proc", "ext2fs_new_dir_block", "ext2fs_write_dir_block4",
+                "ext2fs_inode_size_set", "ext2fs_iblk_add_blocks", "ext2fs_set_rec_len"],
+         extra_harness_src=["C10/iter_unit.c"],
+         extra_src=["lib/ext2fs/csum.c", "lib/ext2fs/blknum.c", "lib/ext2fs/i_block.c"],
+         configs=expand_cfgs(), unwind=5,
+         backends=["default", "kissat"],
+         bound="block size 1024/2048; directory of 1, 3 or 12 mapped blocks; 0..3 new mapping blocks per expansion and presence of an "
+               "append slot symbolic; whole 128-byte inode symbolic"))
+
+def grow_cfgs():
+    c = []
+    for op, l, cs in ((1, 3, 0), (1, 4, 0), (1, 5, 0), (1, 4, 1), (1, 3, 1), (2, 2, 0), (2, 3, 1)):
+        bs = (8 if op == 1 else 32) + 8 * l + 8 * cs
+        d = {"OP": op, "L": l}
+        if cs:
+            d["WITH_CSUM"] = None
+        d["_unwindset"] = ["main.%d:%d" % (i, 4 * bs + 2) for i in range(12)] + \
+                          ["ref_pick.0:%d" % (l + 5), "vf_put_node.0:%d" % (l + 1), "memcpy.0:%d" % (bs + 1), "memmove.0:%d" % (bs + 1),
+                           "stub_write_blk64.0:%d" % (bs + 1), "stub_write_blk64.1:5", "dx_grow_tree.0:4"]
+        c.append(d)
+    return c
+
+HARNESSES.append(
+    dict(name="dxgrow", src="dxgrow.c",
+         funcs=["dx_grow_tree", "dx_insert_entry", "ext2fs_write_dir_block4", "ext2fs_inode_size_set", "ext2fs_set_rec_len"],
+         extra_harness_src=["C10/iter_unit.c"], extra_src=["lib/ext2fs/blknum.c"],
+         configs=grow_cfgs(), unwind=4,
+         backends=["default", "kissat"],
+         bound="interior-node split: node limit 3,4,5 (odd and even; 3,4 with metadata_csum), parent with 1..limit-1 pairs, all hashes and "
+               "blocks symbolic (strictly ascending), lookup target all 2^32 values; depth increase: root limit 2,3"))
+
 def hash_unwind(maxlen):
     return ["dx_hack_hash.0:%d" % (maxlen + 2), "str2hashbuf.0:%d" % (maxlen + 2), "str2hashbuf.1:10",
             "ext2fs_dirhash.0:6", "ext2fs_dirhash.1:%d" % (maxlen // 32 + 3), "ext2fs_dirhash.2:%d" % (maxlen // 16 + 3),
@@ -214,10 +263,12 @@ MANIFEST = {
             "independent reader of the on-disk format by exactly the requested entry, keeps every other entry byte for byte, keeps the "
             "block well formed and the checksum tail intact, and reports no-space / not-found exactly when the reference says so; "
             "ext2fs_lookup and the iterator report exactly what the reader sees. Index nodes: binary search and pair insertion against "
-            "a linear reference. New directory blocks hold exactly '.' and '..'. The name hash equals the kernel's definition "
+            "a linear reference; an interior-node split / depth increase by dx_grow_tree resolves every 32-bit hash to the same leaf as "
+            "before. ext2fs_expand_dir accounts i_size/i_blocks for every block it allocates (0..3 mapping blocks + data block) and writes "
+            "an empty well-formed block. New directory blocks hold exactly '.' and '..'. The name hash equals the kernel's definition "
             "(packing, transform, seed and result selection decided for all inputs separately; end to end in the thorough tier) "
             "except for the kernel's EOF remap (reported finding).",
     "note": "Trusted: CBMC's C semantics, the harness reader (vf_scan) as definition of a well-formed block, stubs for block "
-            "mapping/read/write/checksum. Not covered: sequences, leaf split and tree growth, expand_dir, mkdir/rm/rmdir link "
+            "mapping/read/write/checksum. Not covered: sequences, leaf split, the real block iterator/allocator under expand_dir, mkdir/rm/rmdir link "
             "counts and freeing, inline data, e2fsck interplay; see 'outside'.",
 }
